@@ -586,6 +586,7 @@ func runC11(c *Ctx) {
 	r.Rule("R4", "the cut index is >= 1 at every cut (so the remaining text strictly shrinks: termination and non-empty pieces)")
 	r.Rule("R5", "each loop iteration appends msg[:i] + \"...\" and continues with msg[i:] for the same msg and i; the final append is the remaining msg; nothing else is appended")
 	r.Rule("R6", "Privmsg, Notice, Ctcp, CtcpReply pass only their text and Config.SplitLen to the splitter and send one line per piece")
+	r.Rule("R10", "the pieces reach the wire as they were cut: the only data write to the connection is WriteString(line + CRLF) of the write function's own unmodified line (shared with C09.R3) - a sanitiser in the write path (re-encoding, say) changes piece lengths after the split")
 	r.Rule("R9", "no piece is dropped between the queue and the wire: every success return of the write function is preceded by the WriteString and Flush of its line (shared with C09.R3) - a filter in the send path, say one that skips a line equal to the previous one, loses pieces of a periodic text")
 	r.Rule("R8", "the pieces keep their order on the way to the wire: the only sender on the outbound queue is Raw's own body, by a plain blocking send on every path (shared with C09.R1) - a piece handed to a helper goroutine or a second queue can be overtaken by the next one")
 	r.Rule("R7", "a piece is not shortened on its way to the wire: the value Raw puts on the outbound queue is its own parameter cut only at the first CR/LF (shared with C09.R1), so the bound, the marker and the text of every piece survive")
@@ -871,6 +872,7 @@ func runC11(c *Ctx) {
 	c.rawSenderRule("R8")
 	if wf := c.Func(c.Client, "(*Conn).write"); r.Anchor("R9", "the write function of the send goroutine", wf != nil) {
 		c.writeCompleteRule("R9", wf)
+		c.socketWritersRule("R10", wf)
 	}
 }
 
